@@ -32,14 +32,16 @@ MUTANTS = [
  ("C04-terminator-after-command-only", "C04", "api.go", "\t\tif iterator.Value() == \"--\" {\n\t\t\t// iterate over --", "\t\tif iterator.Value() == \"--\" && currentProgramNode.Parent == nil {\n\t\t\t// iterate over --", "`--` only honoured at the root level"),
  ("C04-lookahead-fix-reverted", "C04", "api.go", "\t\t\t\t\t\tif value == \"--\" {\n\t\t\t\t\t\t\tbreak\n\t\t\t\t\t\t}\n", "", "optional/greedy look-ahead swallows `--`"),
  ("C05-contains-instead-of-prefix", "C05", "api.go", "\t\tif strings.HasPrefix(k, entry) {\n\t\t\tmatches = append(matches, k)", "\t\tif strings.Contains(k, entry) {\n\t\t\tmatches = append(matches, k)", "abbreviation matches any substring"),
- ("C05-ambiguity-resolved-silently", "C05", "api.go", "\t\t\t\tif len(optionMatches) > 1 {\n\t\t\t\t\tsort.Strings(optionMatches)\n\t\t\t\t\terr := fmt.Errorf(text.ErrorAmbiguousArgument, iterator.Value(), optionMatches)\n\t\t\t\t\treturn currentProgramNode, []string{}, err\n\t\t\t\t}", "\t\t\t\tif len(optionMatches) > 1 {\n\t\t\t\t\tsort.Strings(optionMatches)\n\t\t\t\t\tif !strings.HasPrefix(optionMatches[1], optionMatches[0]) {\n\t\t\t\t\t\terr := fmt.Errorf(text.ErrorAmbiguousArgument, iterator.Value(), optionMatches)\n\t\t\t\t\t\treturn currentProgramNode, []string{}, err\n\t\t\t\t\t}\n\t\t\t\t\toptionMatches = optionMatches[:1]\n\t\t\t\t}", "ambiguous prefix resolved to the shortest candidate when candidates prefix each other"),
+ ("C05-ambiguity-resolved-silently", "C05", "api.go", "\t\t\t\tif len(optionMatches) > 1 {\n\t\t\t\t\tsort.Strings(optionMatches)\n\t\t\t\t\terr := fmt.Errorf(text.ErrorAmbiguousArgument, cliArg, optionMatches)\n\t\t\t\t\treturn currentProgramNode, []string{}, err\n\t\t\t\t}", "\t\t\t\tif len(optionMatches) > 1 {\n\t\t\t\t\tsort.Strings(optionMatches)\n\t\t\t\t\tif !strings.HasPrefix(optionMatches[1], optionMatches[0]) {\n\t\t\t\t\t\terr := fmt.Errorf(text.ErrorAmbiguousArgument, cliArg, optionMatches)\n\t\t\t\t\t\treturn currentProgramNode, []string{}, err\n\t\t\t\t\t}\n\t\t\t\t\toptionMatches = optionMatches[:1]\n\t\t\t\t}", "ambiguous prefix resolved to the shortest candidate when candidates prefix each other"),
  ("C06-usedalias-primary", "C06", "api.go", "cOpt.UsedAlias = optionMatches[0]", "cOpt.UsedAlias = cOpt.Name", "CalledAs always reports the primary name"),
  ("C07-bundle-value-to-first", "C07", "isoption.go", "opts[len(opts)-1].Args = []string{args}", "opts[0].Args = []string{args}", "bundled =value goes to the first letter"),
  ("C07-long-option-consults-mode", "C07", "isoption.go", "\t\tif match[1] == \"--\" || match[1] == \"/\" {", "\t\tif (match[1] == \"--\" && !(mode == SingleDash && len(match[2]) == 1)) || match[1] == \"/\" {", "--x (single letter) treated like -x in SingleDash mode"),
  ("C08-warn-silent-in-commands", "C08", "user.go", "\t\tcase Warn:\n\t\t\tfmt.Fprintf(Writer, text.WarningOnUnknown+\"\\n\", option.Name)", "\t\tcase Warn:\n\t\t\tif gopt.finalNode.Parent == nil {\n\t\t\t\tfmt.Fprintf(Writer, text.WarningOnUnknown+\"\\n\", option.Name)\n\t\t\t}", "Warn mode prints nothing when a command was selected"),
  ("C08-unknown-not-carried", "C08", "api.go", "\t\t\t\tif len(currentProgramNode.UnknownOptions) > 0 {\n\t\t\t\t\tv.UnknownOptions = append(append([]*option.Option{}, currentProgramNode.UnknownOptions...), v.UnknownOptions...)\n\t\t\t\t}\n", "", "unknown options before a command token forgotten"),
  ("C09-requireorder-not-inherited", "C09", "user.go", "\t\trequireOrder:    gopt.programTree.requireOrder,\n", "", "commands do not inherit require-order"),
- ("C09-stop-on-unknown-option-dropped", "C09", "api.go", "\t\t\t\t\tif currentProgramNode.requireOrder {\n\t\t\t\t\t\tstoreRemainingAsText(iterator, currentProgramNode)\n\t\t\t\t\t\tbreak ARGS_LOOP\n\t\t\t\t\t}\n\t\t\t\t\t// TODO: This shouldn't", "\t\t\t\t\tif currentProgramNode.requireOrder && currentProgramNode.unknownMode != Pass {\n\t\t\t\t\t\tstoreRemainingAsText(iterator, currentProgramNode)\n\t\t\t\t\t\tbreak ARGS_LOOP\n\t\t\t\t\t}\n\t\t\t\t\t// TODO: This shouldn't", "require-order does not stop at an unknown option in Pass mode"),
+ ("C03-fix11-reverted-passthrough-rereads-iterator", "C03", "api.go", "\t\t\t\t\t\t\tcurrentProgramNode.ChildText = append(currentProgramNode.ChildText, cliArg)\n\t\t\t\t\t\t\tpassedThrough = true", "\t\t\t\t\t\t\tcurrentProgramNode.ChildText = append(currentProgramNode.ChildText, iterator.Value())\n\t\t\t\t\t\t\tpassedThrough = true", "pass-through re-reads the iterator: after a value-taking bundled letter the consumed value is handed back and the token is lost"),
+ ("C03-fix12-reverted-require-order-stop-rereads-iterator", "C03", "api.go", "\t\t\t\t\t\tcurrentProgramNode.ChildText = append(currentProgramNode.ChildText, args[cliArgIdx:]...)\n\t\t\t\t\t\tbreak ARGS_LOOP", "\t\t\t\t\t\t_ = cliArgIdx\n\t\t\t\t\t\tstoreRemainingAsText(iterator, currentProgramNode)\n\t\t\t\t\t\tbreak ARGS_LOOP", "require-order stop inside a bundle starts at the iterator's current position: the stop token is lost"),
+ ("C09-stop-on-unknown-option-dropped", "C09", "api.go", "\t\t\t\t\tif currentProgramNode.requireOrder {\n\t\t\t\t\t\t// Hand over", "\t\t\t\t\tif currentProgramNode.requireOrder && currentProgramNode.unknownMode != Pass {\n\t\t\t\t\t\t// Hand over", "require-order does not stop at an unknown option in Pass mode"),
  ("C10-dispatch-view-rooted-at-root", "C10", "user.go", "return gopt.finalNode.CommandFn(ctx, &GetOpt{gopt.finalNode, gopt.finalNode}, remaining)", "return gopt.finalNode.CommandFn(ctx, &GetOpt{gopt.programTree, gopt.finalNode}, remaining)", "CommandFn receives a view rooted at the root: command-own options invisible"),
  ("C11-dispatch-required-dropped-for-deep", "C11", "user.go", "\terr := checkRequiredOptions(gopt.finalNode.ChildOptions)\n\tif err != nil {\n\t\treturn err\n\t}\n\tif gopt.finalNode.CommandFn != nil {", "\tif gopt.finalNode.Level < 2 {\n\t\terr := checkRequiredOptions(gopt.finalNode.ChildOptions)\n\t\tif err != nil {\n\t\t\treturn err\n\t\t}\n\t}\n\tif gopt.finalNode.CommandFn != nil {", "required options not enforced for sub-sub-commands"),
  ("C11-required-error-not-wrapped", "C11", "user.go", "\t\t\treturn fmt.Errorf(\"%w%s\", ErrorParsing, err.Error())\n\t\t}\n\t}\n\treturn nil\n}", "\t\t\treturn fmt.Errorf(\"%s\", err.Error())\n\t\t}\n\t}\n\treturn nil\n}", "missing-required error no longer wraps ErrorParsing"),
